@@ -216,9 +216,9 @@ def gen_wellformed(rnd, depth, cond_keys, package_keys, p_pkg=0.4, p_ub=0.15):
 
 # --------------------------------------------------------------------------------------------------- AHB expressions
 MODAL_SPELLINGS = {
-    "MUSS": ("Muss", "M", "muss", "MUSS"),
-    "SOLL": ("Soll", "S", "soll", "SOLL"),
-    "KANN": ("Kann", "K", "kann", "KANN"),
+    "MUSS": ("Muss", "M", "Muss", "M", "muss", "MUSS", "m"),
+    "SOLL": ("Soll", "S", "Soll", "S", "soll", "SOLL", "s"),
+    "KANN": ("Kann", "K", "Kann", "K", "kann", "KANN", "k"),
 }
 
 
@@ -230,9 +230,11 @@ def render_ahb(parts, rnd=None, cond_style="plain"):
     chunks = []
     for indicator, ast in parts:
         if indicator in MODAL_SPELLINGS:
-            word = rnd.choice(MODAL_SPELLINGS[indicator][:2]) if rnd is not None else MODAL_SPELLINGS[indicator][0]
+            # M/Muss, S/Soll, K/Kann in any letter case
+            word = rnd.choice(MODAL_SPELLINGS[indicator]) if rnd is not None else MODAL_SPELLINGS[indicator][0]
         else:
-            word = indicator
+            # prefix operators X/O/U in any letter case
+            word = indicator.lower() if rnd is not None and rnd.random() < 0.2 else indicator
         if ast is None:
             chunks.append(word)
         else:
